@@ -438,6 +438,112 @@ pub mod checks {
         rep
     }
 
+    // ---------------------------------------------------------------- C12: a result depends only on (query, document)
+    // Bounded stand-in for the clauses of C12 that no function contract states directly: the same (text, document) pair is evaluated
+    // first on a fresh process state, again after a history of other queries and documents, in the opposite order, through a query
+    // parsed once, and concurrently from several threads sharing one parsed query and one document.
+    type Res = Result<Vec<(usize, String)>, String>;
+    fn run_text(text: &str, d: &Value) -> Res {
+        match catch_unwind(AssertUnwindSafe(|| js_path(text, d))) {
+            Ok(Ok(v)) => Ok(v.iter().map(|r| (r.clone().val() as *const Value as usize, r.clone().path())).collect()),
+            Ok(Err(e)) => Err(format!("Err({})", e)),
+            Err(_) => Err("panic".to_string()),
+        }
+    }
+    fn run_parsed(q: &JpQuery, d: &Value) -> Res {
+        match catch_unwind(AssertUnwindSafe(|| js_path_process(q, d))) {
+            Ok(Ok(v)) => Ok(v.iter().map(|r| (r.clone().val() as *const Value as usize, r.clone().path())).collect()),
+            Ok(Err(e)) => Err(format!("Err({})", e)),
+            Err(_) => Err("panic".to_string()),
+        }
+    }
+    pub fn group_purity(tier: &str, seed: u64, only: Option<(usize, usize)>) -> Report {
+        let mut rep = Report::new("purity");
+        let mut rng = Rng(seed.wrapping_mul(0xD1B54A32D192ED03) | 1);
+        let thorough = tier == "thorough";
+        // query texts: a sample of every through-the-parser family, plus texts that differ only in ways a careless cache key would drop
+        let mut texts: Vec<String> = vec![];
+        for fam in ["text_plain", "text_union", "text_arith", "text_filter"] {
+            let qs = text_queries(fam, "quick", seed);
+            let take = if thorough { 400 } else { 120 };
+            let step = std::cmp::max(1, qs.len() / take);
+            for (i, q) in qs.iter().enumerate() { if i % step == 0 { texts.push(print::query(q)); } }
+        }
+        for t in ["$.a", "$.A", "$.a ", "$ .a", "$['a']", "$[\"a\"]", "$.b", "$.ab", "$.a.b", "$.b.a", "$[0]", "$[00]", "$[1]", "$[-1]", "$[0,1]", "$[1,0]", "$[0:1]", "$[1:0]", "$[?@.a == 1]", "$[?@.a == 2]",
+                  "$[?@.a==1]", "$[?@.b == 1]", "$[?@.a == 'a']", "$[?@.a == \"a\"]", "$[?match(@.a, 'a')]", "$[?match(@.a, 'b')]", "$[?search(@.a, 'a')]", "$[?match(@.b, 'a')]", "$..a", "$..b", "$.*", "$..*",
+                  "$[?length(@.a) == 1]", "$[?count(@.*) == 1]", "$[?count(@.*) == 2]", "$[?value(@.a) == 1]", "$[?@.a < 2]", "$[?@.a <= 2]", "$[?@.a > 2]", "$[?!@.a]", "$[?@.a]", "$[?@.a && @.b]", "$[?@.a || @.b]"] {
+            texts.push(t.to_string());
+        }
+        let ds: Vec<Value> = docs(if thorough { 60 } else { 12 }, seed);
+        let nd = std::cmp::min(ds.len(), if thorough { 120 } else { 48 });
+        let ds = &ds[..nd];
+        // pairs in a fixed order
+        let mut pairs: Vec<(usize, usize)> = vec![];
+        for ti in 0..texts.len() { for di in 0..ds.len() { if thorough || (ti + di) % 3 == 0 { pairs.push((ti, di)); } } }
+        if let Some(o) = only { pairs.retain(|p| *p == o); }
+        // pass 1: first evaluation of every pair, in order
+        let first: Vec<Res> = pairs.iter().map(|(ti, di)| { rep.evaluations += 1; run_text(&texts[*ti], &ds[*di]) }).collect();
+        rep.nontrivial = first.iter().filter(|r| matches!(r, Ok(v) if !v.is_empty())).count() as u64;
+        let w = |ti: usize, di: usize, a: &Res, b: &Res, how: &str| json!({"text": texts[ti], "doc": ds[di], "qi": ti, "di": di, "first": format!("{:?}", a), "again": format!("{:?}", b), "how": how});
+        // pass 2: the same pairs in the opposite order (every pair now has a different history behind it)
+        for (k, (ti, di)) in pairs.iter().enumerate().rev() {
+            rep.evaluations += 1;
+            let again = run_text(&texts[*ti], &ds[*di]);
+            if again != first[k] { rep.fail("purity.history", &[], w(*ti, *di, &first[k], &again, "second evaluation, pairs visited in the opposite order")); }
+        }
+        // pass 3: immediate repetition and a shuffled order
+        let mut order: Vec<usize> = (0..pairs.len()).collect();
+        for i in (1..order.len()).rev() { let j = rng.below(i + 1); order.swap(i, j); }
+        for &k in &order {
+            let (ti, di) = pairs[k];
+            rep.evaluations += 2;
+            let a = run_text(&texts[ti], &ds[di]);
+            let b = run_text(&texts[ti], &ds[di]);
+            if a != first[k] { rep.fail("purity.history", &[], w(ti, di, &first[k], &a, "shuffled order")); }
+            if b != a { rep.fail("purity.repeat", &[], w(ti, di, &a, &b, "immediate repetition")); }
+        }
+        // pass 4: parse once, evaluate on every document (and twice): equals parsing at every call
+        for ti in 0..texts.len() {
+            let q = match catch_unwind(AssertUnwindSafe(|| crate::parser::parse_json_path(&texts[ti]))) { Ok(Ok(q)) => q, _ => continue };
+            for (k, (pti, di)) in pairs.iter().enumerate() {
+                if *pti != ti { continue; }
+                rep.evaluations += 2;
+                let a = run_parsed(&q, &ds[*di]);
+                let b = run_parsed(&q, &ds[*di]);
+                if a != first[k] || b != first[k] { rep.fail("purity.parsed_once", &[], w(ti, *di, &first[k], if a != first[k] { &a } else { &b }, "query parsed once, then evaluated")); }
+            }
+        }
+        // pass 5: one parsed query and one document shared by 8 threads, other threads evaluating other queries at the same time
+        let nthreads = 8usize;
+        let sample: Vec<usize> = (0..pairs.len()).filter(|k| k % (if thorough { 3 } else { 11 }) == 0).collect();
+        for chunk in sample.chunks(4) {
+            let parsed: Vec<Option<JpQuery>> = chunk.iter().map(|&k| crate::parser::parse_json_path(&texts[pairs[k].0]).ok()).collect();
+            let results: Vec<Vec<(usize, Res)>> = std::thread::scope(|sc| {
+                let hs: Vec<_> = (0..nthreads).map(|t| { let parsed = &parsed; let texts = &texts; let pairs = &pairs; sc.spawn(move || {
+                    let mut out = vec![];
+                    for round in 0..3 {
+                        for (j, &k) in chunk.iter().enumerate() {
+                            let jj = (j + t + round) % chunk.len();
+                            let kk = chunk[jj];
+                            let (ti, di) = pairs[kk];
+                            let r = if (t + round) % 2 == 0 { match &parsed[jj] { Some(q) => run_parsed(q, &ds[di]), None => run_text(&texts[ti], &ds[di]) } } else { run_text(&texts[ti], &ds[di]) };
+                            out.push((kk, r));
+                            let _ = k;
+                        }
+                    }
+                    out
+                }) }).collect();
+                hs.into_iter().map(|h| h.join().unwrap_or_default()).collect()
+            });
+            for rs in results { for (k, r) in rs {
+                rep.evaluations += 1;
+                if r != first[k] { let (ti, di) = pairs[k]; rep.fail("purity.threads", &[], w(ti, di, &first[k], &r, "8 threads sharing the parsed query and the document")); }
+            } }
+        }
+        rep.samples.push(json!({"texts": texts.len(), "documents": ds.len(), "pairs": pairs.len(), "threads": nthreads}));
+        rep
+    }
+
     // ---------------------------------------------------------------- C08: deep nesting (stack depth, parse time) — one probe per process
     pub const DEEP_PROBES: [&str; 8] = ["parens", "not_parens", "fn_nesting_valid", "fn_nesting_invalid", "nested_filters", "doc_descendant", "doc_eq", "segments"];
     fn deep_array(depth: usize) -> Value { let mut v = json!(1); for _ in 0..depth { v = Value::Array(vec![v]); } v }
